@@ -6,6 +6,8 @@ prop("C03",
           "(stones and capstones separately, per colour) and opening plies; true plies 0-2. Per position: allmoves, slegal, "
           "gencheck (no two Equal entries, none off the board, Dest defined) and accepts = EVERY raw move shape "
           "((x,y) in -1..size, type 0..9 except Pass, all 255 table words + damaged words) through Position.Move, each accepted move mapped to the "
-          "AllMoves entry it is Equal to (UNLISTED otherwise), compared with the rule-book legal set. distinct op lines",
+          "AllMoves entry it is Equal to (UNLISTED otherwise), compared with the rule-book legal set. Quick tier: 15 of 16 probes are acceptsq = the same, but all 289 words "
+          "only for slide types from on-board squares carrying a stack and a fixed 16-word sample elsewhere; thorough tier: always the full product. "
+          "C03 base generator: slegal on one position in three (allmoves on all). distinct op lines",
      assumptions=["completeness is proved against the rule book Spec.step; that Position.Move accepts exactly what Spec.step accepts is C01 (here: sampled by the accepts probe)",
-                  "Height[i]==0 exactly on squares without a colour bit (part of the position invariant WF, C01)"])
+                  "Height[i]==0 exactly on squares without a colour bit (WFlite; implied by C01's WF, which holds of New, FromSquares output and along applied moves: Props/C03_WF.lean)"])
